@@ -17,6 +17,8 @@ FR = 'openfilter/filter_runtime/frame.py'
 def writer_reader(repo):
     mod, w = repo.find(f'{MQF}::MQ.frames2topicmsgs')
     _, r = repo.find(f'{MQF}::MQ.topicmsgs2frames')
+    q.expect_locals(mod, w, ['frame', 'data', 'msg', 'img', 'xtra', 'enc', 'do_jpg', 'outs_jpg'])
+    q.expect_locals(mod, r, ['msg', 'xtra', 'data', 'dataidx'])
     return mod, w, r
 
 
@@ -184,12 +186,15 @@ def r4(rr, repo):
     fmod, img = repo.find(f'{FR}::Frame.image')
     _, fb = repo.find(f'{FR}::Frame.from_blob')
     a1 = [n for n in ast.walk(img) if isinstance(n, ast.Assert)]
-    ok1 = any('image.shape' in U(a.test) and '__shapef[0]' in U(a.test) and isinstance(a.test, ast.Compare) and isinstance(a.test.ops[0], ast.Eq) for a in a1)
+    ok1 = any(isinstance(a.test, ast.Compare) and isinstance(a.test.ops[0], ast.Eq) and isinstance(a.test.left, ast.Attribute) and a.test.left.attr == 'shape'
+              and '__shapef[0]' in U(a.test.comparators[0]) for a in a1)
     rr.ob('Frame.image asserts decoded shape == declared shape', ok1, fmod, img, key='assert-image')
     a2 = [n for n in ast.walk(fb) if isinstance(n, ast.Assert)]
-    ok2 = any('image.shape[:2]' in U(a.test) and '(height, width)' in U(a.test) for a in a2)
+    fp = q.func_params(fb)
+    ok2 = any(isinstance(a.test, ast.Compare) and isinstance(a.test.ops[0], ast.Eq) and U(a.test.left).endswith('.shape[:2]') and len(fp) >= 4
+              and U(a.test.comparators[0]) == f'({fp[2]}, {fp[3]})' for a in a2)
     rr.ob('Frame.from_blob asserts decoded (rows, cols) == (height, width) when dimensions were declared', ok2, fmod, fb, key='assert-from-blob')
     # declared shape of a jpg-only frame is (height, width[, 3]) in that order
     st = [n for n in ast.walk(fb) if isinstance(n, ast.Assign) and any('__shapef' in U(t) for t in n.targets) and 'height' in U(n.value)]
-    ok3 = bool(st) and '(height, width) if format == \'GRAY\' else (height, width, 3)' in U(st[0].value)
+    ok3 = bool(st) and len(fp) >= 5 and f"({fp[2]}, {fp[3]}) if {fp[4]} == 'GRAY' else ({fp[2]}, {fp[3]}, 3)" in U(st[0].value)
     rr.ob('a jpg-only frame declares its shape as (height, width) / (height, width, 3)', ok3, fmod, st[0] if st else fb, key='declared-shape')
